@@ -29,8 +29,24 @@ NUMERIC = ("primitives::primitive::Primitive::Number", "primitives::primitive::P
 NUM_ARRAYS = ("primitives::iterable::IterableKind::Numbers", "primitives::iterable::IterableKind::Integers", "primitives::iterable::IterableKind::PositiveIntegers", "primitives::iterable::IterableKind::Anys")
 
 
-def normalise(v):
-    """structural AST without spans; numeric literal kinds are not distinguished (2.0 and 2 compile to the same model)"""
+def bound_names(*texts):
+    """names a program text binds somewhere (constants, iteration variables, destructured parts): an identifier index with
+    such a name stands for a value, any other identifier index is a literal name fragment"""
+    out = set()
+    for t in texts:
+        for m in re.finditer(r"\blet\s+([A-Za-z_$][A-Za-z0-9_$]*)", t or ""):
+            out.add(m.group(1))
+        for m in re.finditer(r"([A-Za-z_$][A-Za-z0-9_$]*)\s+in\b", t or ""):
+            out.add(m.group(1))
+        for m in re.finditer(r"\(([^()]*)\)\s*in\b", t or ""):
+            out |= set(re.findall(r"[A-Za-z_$][A-Za-z0-9_$]*", m.group(1)))
+    return out
+
+
+def normalise(v, bound=None):
+    """structural AST without spans; numeric literal kinds are not distinguished (2.0 and 2 compile to the same model);
+    with `bound` (the names the program binds) an identifier index that is bound nowhere is the literal fragment it
+    compiles to, so `x_{"A"}` and `x_A` are the same name unless something called A is in scope somewhere"""
     v = strip_spans(v)
 
     CV = "parser::il::il_problem::CompoundVariable"
@@ -46,7 +62,8 @@ def normalise(v):
         for i in idx[1:]:
             i = go(i)
             if isinstance(i, tuple) and i and i[0] == "name" and len(i[1]) == 1 and i[1][0][0] == "lit":
-                frags.append(("var", i[1][0][1]))          # PreExp::Variable index
+                nm_ = i[1][0][1]
+                frags.append(("var", nm_) if bound is None or nm_ in bound else ("lit", nm_))          # PreExp::Variable index
             elif isinstance(i, tuple) and i and i[0] == "num":
                 frags.append(("lit", _num_text(i[1])))
             elif isinstance(i, tuple) and i and i[0] == "parser::il::il_exp::PreExp::Primitive" and isinstance(i[1][0], tuple) and i[1][0][0] == "primitives::primitive::Primitive::String":
@@ -174,9 +191,10 @@ class Family:
         for k in self.scoped:
             forms.append(("scoped:" + k, "%s ( i in 0 .. 2 ) { x_i }" % k))
             forms.append(("scoped2:" + k, "%s ( i in A , ( a , b ) in enumerate ( B ) ) { x_i_a }" % k))
+            forms.append(("scoped-quoted:" + k, '%s ( i in 0 .. 2 ) { x_{ "i" } + x_i }' % k))
         forms += [("neg", "- x"), ("not", "not x"), ("bang", "! x"), ("add", "x + y"), ("sub-nest", "x - ( y - z )"), ("div-nest", "x / ( y * 2 )"), ("and", "x and y"), ("implies", "x -> y"),
                   ("neg-num", "- 2"), ("float", "2.50"), ("float-small", "0.00001"), ("float-whole", "2.0"), ("string-esc", '"a\\"b"'), ("array-mixed", '[ 1 , "s" ]'), ("array-float", "[ 1.5 , 2 ]"), ("array-nested", "[ [ 1 , 2 ] , [ 3 ] ]"),
-                  ("graph", "Graph { A -> [ B : 2 , C ] , B }"), ("graph-nodes", "Graph { A , B }"), ("graph-one", "Graph { A }"), ("graph-empty", "Graph { }"), ("noname-index", "_{ i }_j"), ("lead-underscore", "_a"), ("lead-underscores", "__a1"), ("dollar", "$a"), ("escaped-lead", "\\_x_i"), ("noname-literal", "_ _a"), ("noname-int", "_1"), ("float-index", "x_{ 0.5 }"), ("compound", "x_i_{ j + 1 }_2"), ("escaped", "\\\\x_i"), ("range-fn", "range ( 0 , 3 , true )"), ("implicit", "2 ( x + 1 ) y")]
+                  ("graph", "Graph { A -> [ B : 2 , C ] , B }"), ("graph-nodes", "Graph { A , B }"), ("graph-one", "Graph { A }"), ("graph-empty", "Graph { }"), ("noname-index", "_{ i }_j"), ("lead-underscore", "_a"), ("lead-underscores", "__a1"), ("dollar", "$a"), ("escaped-lead", "\\_x_i"), ("noname-literal", "_ _a"), ("noname-int", "_1"), ("float-index", "x_{ 0.5 }"), ("compound", "x_i_{ j + 1 }_2"), ("escaped", "\\\\x_i"), ("range-fn", "range ( 0 , 3 , true )"), ("implicit", "2 ( x + 1 ) y"), ("quoted-index", 'x_{ "i" }'), ("quoted-index-mixed", 'x_{ "a" }_i'), ("quoted-index-free", 'x_{ "Q" }_{ "q1" }')]
         seen, out = set(), []
         for l, t in forms:
             if t and t not in seen:
@@ -246,7 +264,8 @@ def check(F, R, Gm, tier="quick"):
         if isinstance(a1, tuple):
             fails.setdefault(("reparse", _group(label)), (label, t, "formatted text `%s`: %s" % (t1.replace("\n", "\\n")[:160], a1[1][:200])))
             continue
-        d = first_diff(normalise(a0), normalise(a1))
+        bn = bound_names(t, t1)
+        d = first_diff(normalise(a0, bn), normalise(a1, bn))
         if d:
             fails.setdefault(("same-ast", _group(label)), (label, t, "formatted text `%s` converts to a different program: %s" % (t1.replace("\n", "\\n")[:160], d[-260:])))
             continue
